@@ -50,11 +50,30 @@ def edit(rng, v, depth=0):
             l[i] = edit(rng, l[i], depth + 1)
         elif c < 8:
             l = []
+        elif c < 9 and l:
+            i = rng.below(len(l))
+            l[i] = alike(l[i])                              # an entry that prints the same but is of another kind
         return l
-    c = rng.below(4)
+    c = rng.below(5)
     if c == 0:
         return v
+    if c == 4:
+        return alike(v)
     return gen.different_scalar(rng, v, PROF)
+
+
+def alike(v):
+    """a scalar of another kind that prints like v (8080 / "8080", true / "true"); anything else unchanged"""
+    if isinstance(v, bool):
+        return "true" if v else "false"
+    if isinstance(v, int):
+        return str(v)
+    if isinstance(v, str):
+        if v in ("true", "false"):
+            return v == "true"
+        if v.isdigit() and len(v) < 10 and (v == "0" or v[0] != "0"):
+            return int(v)
+    return v
 
 
 def other_kind(rng, v):
